@@ -180,6 +180,7 @@ func (f *Frame) analyzeLoops() {
 		}
 	}
 	if f.contract != nil {
+		var notFound []string
 		for _, ls := range f.contract.Loops {
 			matched := false
 			for _, h := range headers {
@@ -199,8 +200,22 @@ func (f *Frame) analyzeLoops() {
 				for _, h := range headers {
 					have = append(have, fmt.Sprintf("#%d=%q", f.loops[h].ordinal, f.loops[h].key))
 				}
-				f.vc.unbound = append(f.vc.unbound, fmt.Sprintf("%s: loop %q not found (have %s)", f.key, ls.Key, strings.Join(have, ", ")))
+				notFound = append(notFound, fmt.Sprintf("%s: loop %q not found (have %s)", f.key, ls.Key, strings.Join(have, ", ")))
 			}
+		}
+		// A loop clause whose loop is gone only matters when some loop of the function is left without invariants:
+		// if every remaining loop is annotated (or there is none) nothing the proofs need is missing.
+		unannotated := false
+		for _, h := range headers {
+			if f.loops[h].spec == nil {
+				unannotated = true
+			}
+		}
+		for _, m := range notFound {
+			if !unannotated {
+				m += " [every remaining loop is annotated]"
+			}
+			f.vc.unbound = append(f.vc.unbound, m)
 		}
 	}
 }
